@@ -30,6 +30,8 @@ type Entry struct {
 	// mutated field (roots, seal commitment; reseal.go); reports whether it changed anything.  Every
 	// structured mutation of an entry with a Fix is fed twice: as mutated, and re-committed.
 	Fix func(m proto.Message) bool
+	// Covers: the decode entry points of the source inventory (harness/cmd/c15/inv) this entry exercises (covers.go)
+	Covers []string
 }
 
 func must[T any](v T, err error) T {
